@@ -26,4 +26,7 @@ C16_MoveNeverSelf == IsMove => R.newsrc # R.host
 IsCount == R.kind = "count"
 C16_NeverListed   == IsCount => ToSet(R.listed) \cap ToSet(R.cascade) = {}
 C16_NeverPromoted == IsCount => ToSet(R.promoted) \cap ToSet(R.cascade) = {}
+\* an unreachable cascade replica is not counted as an HA node: with every HA replica replicating from a master whose
+\* server is fine, the automatic failover stays vetoed
+C16_DeadCascadeNotCounted == R.kind = "cascveto" => R.failoversfiled = 0
 =============================================================================
